@@ -11,8 +11,9 @@ grep -q 'cfg(feature = "cranelift")' tests/demo_$m.rs 2>/dev/null && feat="--fea
 echo "== clean: demo_$m"
 cargo test --offline $feat --test demo_$m 2>&1 | grep -E "^test result|error" | head -3
 git apply $m.diff || { echo "PATCH DOES NOT APPLY"; exit 1; }
-echo "== mutated: suite (default)"
-cargo test --offline --no-fail-fast 2>&1 | grep -E "^test result|FAILED|^error" | awk '/^test result/ {p+=$4; f+=$6} /error|FAILED/ {e+=1} END {print "passed",p,"failed",f,"errors",e+0}'
-echo "== mutated: suite (cranelift)"
-cargo test --offline --no-fail-fast --features cranelift 2>&1 | grep -E "^test result|FAILED|^error" | awk '/^test result/ {p+=$4; f+=$6} /error|FAILED/ {e+=1} END {print "passed",p,"failed",f,"errors",e+0}'
+for cfg in "" "--features cranelift"; do
+  echo "== mutated: suite ($cfg) - failing tests (only demo_* tests may appear):"
+  cargo test --offline --no-fail-fast $cfg 2>&1 | grep -E "^test .* FAILED|^error: test failed|^test result: FAILED|could not compile" | sort | uniq -c | head -12
+  cargo test --offline --no-fail-fast $cfg 2>&1 | grep -E "^test result" | awk '{p+=$4; f+=$6} END {print "   totals: passed",p,"failed",f}'
+done
 git checkout -q -- src
